@@ -44,6 +44,7 @@ type stub struct {
 	reads                int
 	zeroCopy             bool
 	shared               []byte
+	sharedUsed           int
 	afterTerm            int // reads that started after a terminal error was returned
 	termSeen             bool
 	lastRet              time.Time
@@ -92,10 +93,11 @@ func (s *stub) read(shared bool) ([]byte, gopacket.CaptureInfo, error) {
 	}
 	if shared {
 		// every packet comes back in the same backing buffer, overwritten by the next read
-		for i := range s.shared {
+		for i := 0; i < s.sharedUsed; i++ {
 			s.shared[i] = 0xAA
 		}
 		n := copy(s.shared, it.data)
+		s.sharedUsed = n
 		return s.shared[:n], it.ci, nil
 	}
 	return append([]byte(nil), it.data...), it.ci, nil
@@ -150,7 +152,7 @@ func simC16(c *sim.Ctx) {
 	}
 	c.Ev("config", b2i(zero), b2i(channel), int64(opt), int64(cancelAt), b2i(abandon), int64(nsub), int64(again), b2i(late))
 	bubble.Run(c, func(b *bubble.B) {
-		st := &stub{feed: make(chan item), zeroCopy: zero, shared: make([]byte, 256)}
+		st := &stub{feed: make(chan item), zeroCopy: zero, shared: make([]byte, 9216)}
 		var ps *gopacket.PacketSource
 		var opts []gopacket.PacketSourceOption
 		if !late {
@@ -248,6 +250,10 @@ func simC16(c *sim.Ctx) {
 				if c.Chance(60) {
 					// nothing captured of a packet that was on the wire (snap length 0)
 					n = 0
+				} else if c.Chance(60) {
+					// around and above the size of a pool block / an Ethernet MTU:
+					// full-size and jumbo frames
+					n = []int{1499, 1500, 1501, 1514, 1600 + c.Draw(7400)}[c.Draw(5)]
 				}
 				it.data = make([]byte, n)
 				for i := range it.data {
@@ -604,6 +610,22 @@ func simC16(c *sim.Ctx) {
 			c.Probe("concatenated_sources")
 		}
 		// ---- order / once / intact ----
+		if pool {
+			// the program goes on decoding with the Pool option while it still
+			// holds the packets it was given: they keep their blocks
+			var more []gopacket.Packet
+			for i := 0; i < 4; i++ {
+				more = append(more, gopacket.NewPacket(bytes.Repeat([]byte{0xE0 + byte(i)}, 24), gopacket.DecodePayload, gopacket.DecodeOptions{Pool: true}))
+			}
+			defer func() {
+				for _, p := range more {
+					if pp, ok := p.(gopacket.PooledPacket); ok {
+						pp.Dispose()
+					}
+				}
+			}()
+			c.Probe("pooled_decodes_after_the_run")
+		}
 		want := sent
 		var gotP []got
 		for _, g := range recv {
